@@ -18,7 +18,8 @@ import (
 func init() {
 	// the date oracle: time.Parse asked directly, not through the code under test
 	ops["tparse"] = func(a []string) string {
-		t, err := time.Parse(time.RFC1123Z, arg(a, 0))
+		// the library's whenLayout since repair 1324060: RFC1123Z with a day of one or two digits
+		t, err := time.Parse("Mon, 2 Jan 2006 15:04:05 -0700", arg(a, 0))
 		if err != nil {
 			return "err"
 		}
